@@ -129,6 +129,16 @@ CASES = [
     ("s-c17-equiv-bits", "C17", "silent", "xdis/codetype/code311.py", "        return (b & 0b01111000) >> 3  # extracts bits 3-6", "        return (b >> 3) & 15  # extracts bits 3-6", ""),
     ("m-c19-chunk", "C19", "fire", "xdis/codetype/code30.py", "            while offset_diff >= 256:\n                co_lnotab += bytearray([255, 0])\n                offset_diff -= 255", "            while offset_diff >= 256:\n                co_lnotab += bytearray([256, 0])\n                offset_diff -= 256", "const-address-byte"),
     ("m-c19-freeze-attr", "C19", "fire", "xdis/codetype/code30.py", "        if isinstance(self.co_lnotab, str):\n            self.co_lnotab = self.co_lnotab.encode()", "        if isinstance(self.co_linetable, str):\n            self.co_lnotab = self.co_lnotab.encode()", "reads-defined-attributes"),
+    # ---------------- later additions (seed-driven rules)
+    ("m-c17-colines-onesided-split", "C17", "fire", "xdis/codetype/code311.py", "            linetable_entry.line_delta != 0\n            or linetable_entry.no_line_flag != no_line_flag", "            linetable_entry.line_delta != 0\n            or (linetable_entry.no_line_flag and not no_line_flag)", "co_lines:range-per-entry"),
+    ("m-c05-colines-onesided-split", "C05", "fire", "xdis/codetype/code311.py", "            linetable_entry.line_delta != 0\n            or linetable_entry.no_line_flag != no_line_flag", "            linetable_entry.line_delta != 0\n            or (linetable_entry.no_line_flag and not no_line_flag)", "co_lines:range-per-entry"),
+    ("m-c17-colines-start-not-moved", "C17", "fire", "xdis/codetype/code311.py", "            no_line_flag = linetable_entry.no_line_flag\n            code_start = code_end\n", "            no_line_flag = linetable_entry.no_line_flag\n", "co_lines:range-per-entry"),
+    ("s-c17-colines-never-merge", "C17", "silent", "xdis/codetype/code311.py", "        if (\n            linetable_entry.line_delta != 0\n            or linetable_entry.no_line_flag != no_line_flag\n        ):", "        if True:", ""),
+    ("m-c16-native-cache", "C16", "fire", "xdis/codetype/code311.py", "        code = deepcopy(self)\n        code.freeze()\n        try:\n            code.check()\n        except AssertionError as e:\n            raise TypeError(e)\n\n        return types.CodeType(\n            code.co_argcount,\n            code.co_posonlyargcount,\n            code.co_kwonlyargcount,\n            code.co_nlocals,\n            code.co_stacksize,\n            code.co_flags,\n            code.co_code,\n            code.co_consts,\n            code.co_names,\n            code.co_varnames,\n            code.co_filename,\n            code.co_name,\n            code.co_qualname,",
+     "        if getattr(self, \"_frozen\", None) is not None:\n            code = self._frozen\n        else:\n            code = deepcopy(self)\n            code.freeze()\n            self._frozen = code\n        try:\n            code.check()\n        except AssertionError as e:\n            raise TypeError(e)\n\n        return types.CodeType(\n            code.co_argcount,\n            code.co_posonlyargcount,\n            code.co_kwonlyargcount,\n            code.co_nlocals,\n            code.co_stacksize,\n            code.co_flags,\n            code.co_code,\n            code.co_consts,\n            code.co_names,\n            code.co_varnames,\n            code.co_filename,\n            code.co_name,\n            code.co_qualname,", "fresh-object"),
+    ("m-c12-backward-startswith", "C12", "fire", "xdis/bytecode.py", "\"JUMP_BACKWARD\" in opname", "opname.startswith(\"JUMP_BACKWARD\")", "C04-R1"),
+    ("m-c20-linedelta-boundary", "C20", "fire", "xdis/cross_dis.py", "            if line_delta >= 0x80:", "            if line_delta > 0x80:", "C05-R2"),
+    ("m-c13-long-noref", "C13", "fire", "xdis/unmarshal.py", "        if n < 0:\n            d = long(d * -1)", "        if n < 0:\n            return long(-d)", "C01-R3"),
 ]
 
 
